@@ -136,16 +136,33 @@ def chain_case(rng, k, flavour=None):
     W, H = rng.choice([2, 3, 4, 6, 7, 9, 10, 12, 16, 29]), rng.choice([2, 3, 4, 5, 6, 8, 11])
     pm = (1 << (8 * bpp)) - 1
     fb = [[rng.randint(0, pm) for _ in range(W)] for _ in range(H)]
-    flavour = flavour or rng.choice(["chain", "chain", "sess"])
-    if flavour == "sess":
+    flavour = flavour or rng.choice(["chain", "chain", "sess", "mixed", "mixed"])
+    if flavour in ("sess", "mixed"):
         tc = 1          # colour-mapped screens send SetColourMapEntries first: not decoded by the harness
     L = ["case %d %s" % (k, flavour), "screen %d %d %d %d %d %d %d %d %d %d" % ((W, H) + fmt + (tc,)),
          "fb " + " ".join("%x" % p for r in fb for p in r)]
     ncl = rng.choice([1, 2, 3, 4])
+    if flavour == "mixed":
+        # scaled / unscaled x soft-cursor / RichCursor / XCursor clients, a cursor on the screen: the server paints
+        # it into the framebuffer AND into every scaled copy around the updates of soft-cursor clients
+        ncl = rng.choice([2, 3, 4])
+        cw_, ch_ = rng.choice([1, 2, 3]), rng.choice([1, 2, 3])
+        L.append("curs %d %d %d %d" % (cw_, ch_, rng.randint(0, cw_ - 1), rng.randint(0, ch_ - 1)))
+    kinds = {}
     for i in range(ncl):
-        L.append("client %d" % i)
+        kinds[i] = rng.choice(["", "", "rich", "x"]) if flavour == "mixed" else ""
+        if flavour == "mixed" and i == 0:
+            kinds[i] = ""                       # at least one soft-cursor client
+        L.append(("client %d %s" % (i, kinds[i])).rstrip())
     alive = list(range(ncl))
     dims = {i: (W, H) for i in alive}
+    if flavour == "mixed":                      # client 0 stays unscaled, some other one is scaled
+        j = rng.choice(alive[1:])
+        n = rng.choice([2, 2, 3])
+        if W // n >= 1 and H // n >= 1:
+            L.append("scale %d %d 0" % (j, n)); dims[j] = (W // n, H // n)
+        for i in alive:
+            L.append("upd %d 0 0 0 %d %d" % ((i,) + dims[i]))
     def factor():
         m = min(W, H)
         return rng.choice([1, 1, 2, 2, 3, 3, 4, 5, m, max(1, m - 1), rng.randint(1, max(1, m))])
@@ -172,14 +189,26 @@ def chain_case(rng, k, flavour=None):
         elif r < 0.88 and len(alive) > 1:
             L.append("gone %d" % i)
             alive.remove(i)
-        elif flavour == "sess" and dims[i][0] >= 1 and dims[i][1] >= 1:
+        elif flavour == "mixed" and r < 0.93 and len(alive) + 0 < 5 and rng.random() < 0.3:
+            k2 = max(kinds) + 1                 # a new client joins, possibly an existing scaled view
+            kinds[k2] = rng.choice(["", "rich", "x"])
+            L.append(("client %d %s" % (k2, kinds[k2])).rstrip())
+            alive.append(k2); dims[k2] = (W, H)
+            others = [d for d in dims.values() if d != (W, H)]
+            if others and rng.random() < 0.7:
+                d = rng.choice(others)
+                n = next((f for f in range(2, max(W, H) + 1) if (W // f, H // f) == d), None)
+                if n:
+                    L.append("scale %d %d 0" % (k2, n)); dims[k2] = d
+            L.append("upd %d 0 0 0 %d %d" % ((k2,) + dims[k2]))
+        elif flavour in ("sess", "mixed") and dims[i][0] >= 1 and dims[i][1] >= 1:
             w2, h2 = dims[i]
             if rng.random() < 0.6:
                 L.append("upd %d %d 0 0 %d %d" % (i, rng.choice([0, 1]), w2, h2))
             else:
                 x1, y1, x2, y2 = rand_rect_in(rng, w2, h2)
                 L.append("upd %d %d %d %d %d %d" % (i, rng.choice([0, 1]), x1, y1, x2 - x1, y2 - y1))
-    if flavour == "sess":
+    if flavour in ("sess", "mixed"):
         for i in alive:
             L.append("upd %d 0 0 0 %d %d" % ((i,) + dims[i]))
     return L
@@ -434,6 +463,7 @@ def oracle_case(script, impl, crash=None):
     fmt, tc, fb = None, 1, []
     cl = {}          # k -> dict(alive, dims, palm)
     ncl = 0
+    have_cursor = False
     it = iter(impl)
     for op in script[1:]:
         p = op.split()
@@ -457,8 +487,10 @@ def oracle_case(script, impl, crash=None):
             v = [int(t, 16) for t in p[1:]]
             fb = [v[y * W:(y + 1) * W] for y in range(H)]
         elif p[0] == "client":
-            cl[ncl] = dict(alive=True, dims=(W, H), palm=False)
+            cl[ncl] = dict(alive=True, dims=(W, H), palm=False, shape=("rich" in p[2:] or "x" in p[2:]))
             ncl += 1
+        elif p[0] == "curs":
+            have_cursor = True
         elif p[0] == "corr":
             fw_, fh_, tw, th, x, y, w, h = (int(t) for t in p[1:])
             if line == "corr indef":
@@ -531,7 +563,12 @@ def oracle_case(script, impl, crash=None):
             k = int(p[1])
             if k in cl:
                 cl[k]["alive"] = False
-        if p[0] in ("scale", "fill", "gone", "client") and " chain=[" in line:
+        if p[0] == "upd" and " app=" in line:
+            ma = re.search(r" app=(\S*) main=", line)
+            if ma and parse_dump(ma.group(1)) != fb:
+                errs.append(("application framebuffer is not restored after an update (cursor left in it)",
+                             {"kind": "pixels", "what": "app_fb", "divides": True}))
+        if p[0] in ("scale", "fill", "gone", "client", "upd") and " chain=[" in line:
             m = re.search(r"main=(\d+)x(\d+):(-?\d+) chain=\[(.*?)\] cl=\[(.*?)\]", line)
             if not m:
                 continue
@@ -565,13 +602,14 @@ def oracle_case(script, impl, crash=None):
                 if x + w > w2 or y + h > h2 or w == 0 or h == 0:
                     errs.append(("update rectangle %s is not a non-empty rectangle inside the scaled size %dx%d" % ((x, y, w, h), w2, h2),
                                  {"kind": "geometry", "what": "rect_outside"}))
-            if "OUTSIDE" in line or "ENC" in line or "SHORT" in line or "EXTRA" in line or "TRUNCATED" in line:
+            if "OUTSIDE" in line or "ENC" in line or "MALFORMED" in line or "EXTRA" in line:
                 errs.append(("malformed update for a scaled client: " + line[:120], {"kind": "geometry", "what": "stream"}))
-            if p[2] == "0" and [int(t) for t in p[3:7]] == [0, 0, w2, h2] and w2 > 0 and h2 > 0:
+            soft_with_cursor = have_cursor and k in cl and not cl[k].get("shape")      # cursor painted into its picture: C15's
+            if p[2] == "0" and [int(t) for t in p[3:7]] == [0, 0, w2, h2] and w2 > 0 and h2 > 0 and not soft_with_cursor:
                 got = parse_dump(m.group(3))
                 want = ref_filter(fb, W, H, fmt, tc, w2, h2)
                 if got != want:
-                    errs.append(("client picture after a full update is not the box-filtered framebuffer",
+                    errs.append(("client picture after a full update is not the box-filtered (cursor-free) framebuffer",
                                  {"kind": "pixels", "what": "picture", "divides": W % w2 == 0 and H % h2 == 0}))
     return errs
 
